@@ -146,7 +146,7 @@ def run(tier, seed):
         rep.fail({"class": "statecount"}, ["states"], {"kind": "single", "seq": []},
                  "reachable option states: %d, documented 12" % len(seen))
     # --- all sequences up to depth without deduplication ------------------------------------------------------
-    maxd = 3 if tier == "quick" else 4      # 30 transitions: 27 930 / 837 930 sequences
+    maxd = 3 if tier == "quick" else 4      # 55 transitions: 169 455 / 9.3 M sequences
     for d in range(1, maxd + 1):
         if rep.expired():
             rep.cut_short("sequence depth %d not run" % d)
